@@ -73,8 +73,12 @@ def ev_to_line(ev):
     raise vp.Broken("unknown model event " + str(ev))
 
 
-def walks_to_lines(walk_sets):
-    """walk_sets: list of (reset header, [walk]) -> (lines, expected events aligned to lines)"""
+def walks_to_lines(walk_sets, observe=False):
+    """walk_sets: list of (reset header, [walk]) -> (lines, expected events aligned to lines).
+    observe: after every Model step, every created sandbox is probed (the set of reachable
+    callbacks is observed). Covering walks visit every EDGE once, but the real state behind a
+    Model state depends on the PATH: observing after each step makes every edge's effect visible
+    on the path it was actually taken on, not only where the covering happens to probe."""
     lines, expected = [], []
     for hdr, walks in walk_sets:
         for w in walks:
@@ -83,10 +87,22 @@ def walks_to_lines(walk_sets):
             for e in w:
                 lines.append(ev_to_line(e["ev"]))
                 expected.append(e["ev"])
+                if observe and e["ev"]["e"] != "probe":
+                    for s in sorted(e["dst"]["st"]):
+                        if e["dst"]["st"][s] == "cr":
+                            lines.append("probe " + s)
+                            expected.append(None)
     return lines, expected
 
 
-def replay(drv, wd, tag, lines):
+def dylib_driver():
+    """sbx_driver on the bundled dylib backend + the two builds of the guest library"""
+    import callscommon as cc
+    drv = vp.build("sbx_dylib", ["sbx_driver.cpp"], ["-DBK_DYLIB"], "-O1", ["-ldl", "-rdynamic"])
+    return drv, cc.build_guestlibs()
+
+
+def replay(drv, wd, tag, lines, extra=()):
     """Runs the dumb executor over the action lines; if the process terminates (an abort
     escaped a noexcept member), the death is recorded as the observation of that action and
     the run resumes at the next execution."""
@@ -98,7 +114,7 @@ def replay(drv, wd, tag, lines):
     part = 0
     while first <= len(lines):
         tpath = os.path.join(wd, "trace_%s_%d.ndjson" % (tag, part))
-        p = vp.run([drv, wpath, tpath, str(first)], timeout=900)
+        p = vp.run([drv, wpath, tpath, str(first)] + list(extra), timeout=900)
         evs = vp.read_ndjson(tpath)
         events += evs
         part += 1
